@@ -137,8 +137,17 @@ def run(ctx):
             return None
         if t[1] == protect:
             return 'conf'
+        def base(x):
+            """the sequence whose elements x enumerates: reversed(s), list(s), tuple(s), s[:] and s[::-1] enumerate those of s"""
+            while True:
+                if tq.is_call(x) and x[1] in ('builtins.reversed', 'builtins.list', 'builtins.tuple') and len(x[3]) == 1:
+                    x = x[3][0][1]
+                elif x[0] == 'slice' and x[2] == NONE and x[3] == NONE and x[4] in (NONE, const(-1), const(1)):
+                    x = x[1]
+                else:
+                    return x
         for k, lst in req.items():
-            if t[1] == lst or (tq.is_call(t[1], 'builtins.reversed') and list(tq.args(t[1]).values()) == [lst]):
+            if base(t[1]) == lst:
                 return k
         return None
     rets = [(pc, strip_ids(t)) for pc, t, _ in G.returns]
@@ -250,13 +259,19 @@ def run(ctx):
             offered = attr(pending, side)
             el = ('elem', offered, 0)
             matches = ('list', (('each', 0, offered, norm_pc(((('call', 'message.TrafficSelector.is_subset', strip_ids(chosen), (('other', el),)), True),)), el),))
-            found = any(strip_ids(a[0]) == matches and a[1] for x in inst for a in x.pc)
+            want_exists = tq.exists_form(matches)
+
+            def is_search(a):
+                """the atom says: some offered selector contains the chosen one (a filtering comprehension that is non-empty, or any())"""
+                return a[1] is True and tq.exists_form(a[0]) == want_exists
+            found = any(is_search(a) for x in inst for a in x.pc)
             ctx.check(found, 'R2', 'the chosen %s is searched among the offered %s selectors with is_subset' % (side, side),
                       key=('R2', 'matches', side), site=ctx.site(rs, c.node))
-            ok = len(inst) >= 3 and all(any(strip_ids(a[0]) == matches and a[1] for a in x.pc) for x in inst)
+            ok = len(inst) >= 3 and all(any(is_search(a) for a in x.pc) for x in inst)
             all_matches.append(matches)
             # the refusal: an exception raised exactly when one of the searches found nothing
-            bad = [(rpc, rt) for rpc, rt, _ in S.raises if any(tq.contains(a[0], matches) for a in strip_ids(rpc))]
+            bad = [(rpc, rt) for rpc, rt, _ in S.raises if any(tq.find(a[0], lambda y: tq.exists_form(y) == want_exists) or
+                                                               tq.exists_form(a[0]) == want_exists for a in strip_ids(rpc))]
             ok = ok and bool(bad) and all(tq.is_call(rt, 'new message.TsUnacceptable') for _, rt in bad)
             ctx.check(ok, 'R2', 'a response whose %s is not inside the offer raises TsUnacceptable before anything is '
                       'tracked or installed' % side, key=('R2', 'widened', side), site=ctx.site(rs, c.node))
